@@ -14,17 +14,23 @@ impl<R> DeflateDecoder<R> {
     pub uninterp spec fn g_inner(&self) -> R;
     #[verifier::external_body] pub fn new(r: R) -> (d: DeflateDecoder<R>) ensures d.g_inner() == r { unimplemented!() }
     #[verifier::external_body] pub fn into_inner(self) -> (r: R) ensures r == self.g_inner() { unimplemented!() }
+    // ASSUMED (flate2): a mutable reference to the reader the decoder sits on; the decoder is otherwise untouched
+    #[verifier::external_body] pub fn get_mut(&mut self) -> (r: &mut R) ensures *r == old(self).g_inner(), final(self).g_inner() == *final(r) { unimplemented!() }
 }
 impl<R> BzDecoder<R> {
     pub uninterp spec fn g_inner(&self) -> R;
     #[verifier::external_body] pub fn new(r: R) -> (d: BzDecoder<R>) ensures d.g_inner() == r { unimplemented!() }
     #[verifier::external_body] pub fn into_inner(self) -> (r: R) ensures r == self.g_inner() { unimplemented!() }
+    // ASSUMED (bzip2): a mutable reference to the reader the decoder sits on; the decoder is otherwise untouched
+    #[verifier::external_body] pub fn get_mut(&mut self) -> (r: &mut R) ensures *r == old(self).g_inner(), final(self).g_inner() == *final(r) { unimplemented!() }
 }
 impl<'a, R> ZstdDecoder<'a, BufReader<R>> {
     pub uninterp spec fn g_inner(&self) -> BufReader<R>;
     // ASSUMED: constructing a zstd decoder context does not fail (the crate unwraps it)
     #[verifier::external_body] pub fn new(r: R) -> (d: io::Result<ZstdDecoder<'a, BufReader<R>>>) ensures d is Ok, d->Ok_0.g_inner().g_inner() == r { unimplemented!() }
     #[verifier::external_body] pub fn finish(self) -> (r: BufReader<R>) ensures r == self.g_inner() { unimplemented!() }
+    // ASSUMED (zstd): a mutable reference to the reader the decoder sits on; the decoder is otherwise untouched
+    #[verifier::external_body] pub fn get_mut(&mut self) -> (r: &mut BufReader<R>) ensures *r == old(self).g_inner(), final(self).g_inner() == *final(r) { unimplemented!() }
 }
 impl<R> Dev for DeflateDecoder<R> { open spec fn g_dev(&self) -> bool { false } open spec fn g_bytes(&self) -> Seq<u8> { Seq::empty() } open spec fn g_pos(&self) -> int { 0 } open spec fn g_fault(&self) -> bool { false } }
 impl<R> Dev for BzDecoder<R> { open spec fn g_dev(&self) -> bool { false } open spec fn g_bytes(&self) -> Seq<u8> { Seq::empty() } open spec fn g_pos(&self) -> int { 0 } open spec fn g_fault(&self) -> bool { false } }
@@ -79,7 +85,22 @@ impl<R> AesReaderValid<R> {
     pub uninterp spec fn g_reader(&self) -> R;
     pub uninterp spec fn g_mode(&self) -> AesMode;
     pub uninterp spec fn g_password(&self) -> Seq<u8>;
+    // ghost: the authentication code has been read and compared (field `finalized`); ciphertext bytes not yet read (field `data_remaining`)
+    pub uninterp spec fn g_finalized(&self) -> bool;
+    pub uninterp spec fn g_remaining(&self) -> u64;
     #[verifier::external_body] pub fn into_inner(self) -> (r: R) ensures r == self.g_reader() { unimplemented!() }
 }
 impl<R> Dev for AesReaderValid<R> { open spec fn g_dev(&self) -> bool { false } open spec fn g_bytes(&self) -> Seq<u8> { Seq::empty() } open spec fn g_pos(&self) -> int { 0 } open spec fn g_fault(&self) -> bool { false } }
-impl<R: Read> Read for AesReaderValid<R> { #[verifier::external_body] fn read(&mut self, buf: &mut [u8]) -> (r: io::Result<usize>) { unimplemented!() } }
+impl<R: Read> Read for AesReaderValid<R> {
+    // contract PROVED on the real body in unit U11 (clauses advances_by_returned_count, reads_at_most_min_remaining_buflen,
+    // ciphertext_that_ends_early_is_an_error, end_of_file_only_after_authentication, authentication_is_never_undone):
+    // end-of-file (Ok(0) to a non-empty buffer) is reported only after the authentication code has been checked
+    open spec fn g_read_rel(&self, after: &Self, buf_len: int, out: Seq<u8>, r: io::Result<usize>) -> bool {
+        &&& after.g_mode() == self.g_mode() && after.g_password() == self.g_password()
+        &&& (self.g_finalized() ==> after.g_finalized())
+        &&& (r matches Ok(n) ==> n <= self.g_remaining() && after.g_remaining() == self.g_remaining() - n
+                && (n == 0 && buf_len > 0 ==> after.g_finalized())
+                && (self.g_remaining() > 0 && buf_len > 0 ==> n > 0))
+    }
+    #[verifier::external_body] fn read(&mut self, buf: &mut [u8]) -> (r: io::Result<usize>) { unimplemented!() }
+}
